@@ -793,7 +793,7 @@ func r10_1(c *Ctx, lf *lexFacts, la *lexAnchors, capOK bool) {
 							guard = true
 						}
 					}
-					if !(isRp && guard) && c.bceProven(in.Pos()) {
+					if !(isRp && guard) && c.bceProvenIn(f, in.Pos()) {
 						c.ok(k, in.Pos(), bceWhy)
 						return
 					}
@@ -802,7 +802,7 @@ func r10_1(c *Ctx, lf *lexFacts, la *lexAnchors, capOK bool) {
 				}
 				if why := guardedIndex(f, base, idx, b); why != "" {
 					c.ok(k, in.Pos(), "%s", why)
-				} else if c.bceProven(in.Pos()) {
+				} else if c.bceProvenIn(f, in.Pos()) {
 					c.ok(k, in.Pos(), bceWhy)
 				} else {
 					c.bad(k, in.Pos(), "index %s[%s] is not shown to be in range", base.Name(), idx.Name())
@@ -830,14 +830,14 @@ func r10_1(c *Ctx, lf *lexFacts, la *lexAnchors, capOK bool) {
 						// fallback (R10.2): every advance of this function runs on a non-zero current byte, so position never passes len(input)
 						bounded, how = guardedAdvances(lf, f), "every advance in this scanner executes on a current byte known to be non-zero (byte-set analysis), so position <= len(input)"
 					}
-					if !(okLow && okH && bounded) && c.bceProven(in.Pos()) {
+					if !(okLow && okH && bounded) && c.bceProvenIn(f, in.Pos()) {
 						c.ok(k, in.Pos(), bceWhy)
 						return
 					}
 					c.check(okLow && okH && bounded, k, in.Pos(), "input[a:position] with a an earlier read of position; 0 <= a <= position <= len(input): "+how, "the input slice is not input[<earlier position>:position], or neither the cursor cap (R10.9) nor guarded advances bound position by len(input): slicing can exceed the input and panic")
 					return
 				}
-				if c.bceProven(in.Pos()) {
+				if c.bceProvenIn(f, in.Pos()) {
 					c.ok(k, in.Pos(), bceWhy)
 					return
 				}
